@@ -12,24 +12,24 @@ use apollo_compiler::validation::{DiagnosticList, Valid};
 use apollo_compiler::{ExecutableDocument, Schema};
 use std::collections::HashMap;
 
-const KIND_CH: [&str; 6] = ["s", "o", "i", "u", "e", "n"];
-const KIND_KW: [&str; 6] = ["scalar", "type", "interface", "union", "enum", "input"];
+pub(crate) const KIND_CH: [&str; 6] = ["s", "o", "i", "u", "e", "n"];
+pub(crate) const KIND_KW: [&str; 6] = ["scalar", "type", "interface", "union", "enum", "input"];
 const BUILTIN_TYPES: [&str; 13] = ["__Schema", "__Type", "__TypeKind", "__Field", "__InputValue", "__EnumValue", "__Directive",
     "__DirectiveLocation", "Int", "Float", "String", "Boolean", "ID"];
 
 #[derive(Clone, Copy, PartialEq, Eq, Debug)]
-enum Tag { SchemaDef, SchemaExt, DirDef, TypeDef, TypeExt, Op, Frag }
+pub(crate) enum Tag { SchemaDef, SchemaExt, DirDef, TypeDef, TypeExt, Op, Frag }
 
 /// one definition, structurally; `kind` indexes KIND_* for type definitions / extensions
 #[derive(Clone, Debug)]
-struct D {
-    tag: Tag,
-    kind: usize,
-    name: String,
-    dirs: Vec<String>,
-    ifaces: Vec<String>,
+pub(crate) struct D {
+    pub(crate) tag: Tag,
+    pub(crate) kind: usize,
+    pub(crate) name: String,
+    pub(crate) dirs: Vec<String>,
+    pub(crate) ifaces: Vec<String>,
     /// fields / values / members / input fields: (name, ""); root operations: (operation type, object type)
-    members: Vec<(String, String)>,
+    pub(crate) members: Vec<(String, String)>,
 }
 
 /// rendered definition: text plus offsets relative to its start
@@ -62,7 +62,7 @@ fn render(d: &D) -> R {
             t.push_str("directive @");
             r.name_pos = t.len();
             t.push_str(&d.name);
-            t.push_str(" on SCHEMA | SCALAR | OBJECT | INTERFACE | UNION | ENUM | INPUT_OBJECT | FIELD");
+            t.push_str(" repeatable on SCHEMA | SCALAR | OBJECT | INTERFACE | UNION | ENUM | INPUT_OBJECT | FIELD");
         }
         Tag::Op => { t.push_str("query "); r.name_pos = t.len(); t.push_str(&d.name); t.push_str(" { a }"); }
         Tag::Frag => { t.push_str("fragment "); r.name_pos = t.len(); t.push_str(&d.name); t.push_str(" on Query { a }"); }
@@ -98,7 +98,7 @@ fn render(d: &D) -> R {
 }
 
 /// sources as texts + the case-line encoding with global positions (offsets in the concatenation)
-fn assemble(srcs: &[Vec<D>]) -> (Vec<String>, Vec<usize>, String) {
+pub(crate) fn assemble(srcs: &[Vec<D>]) -> (Vec<String>, Vec<usize>, String) {
     let mut texts = vec![];
     let mut bases = vec![];
     let mut enc_srcs = vec![];
@@ -133,9 +133,9 @@ fn assemble(srcs: &[Vec<D>]) -> (Vec<String>, Vec<usize>, String) {
     (texts, bases, enc_srcs.join("|"))
 }
 
-struct Built { schema: Schema, errors: Option<DiagnosticList> }
+pub(crate) struct Built { pub(crate) schema: Schema, pub(crate) errors: Option<DiagnosticList> }
 
-fn build_schema(texts: &[String], adopt: bool, ignore: bool) -> Built {
+pub(crate) fn build_schema(texts: &[String], adopt: bool, ignore: bool) -> Built {
     let mut b = Schema::builder();
     if adopt { b = b.adopt_orphan_extensions(); }
     if ignore { b = b.ignore_builtin_redefinitions(); }
@@ -147,7 +147,7 @@ fn build_schema(texts: &[String], adopt: bool, ignore: bool) -> Built {
 }
 
 /// location ↦ offset in the concatenation of the sources
-struct Locs { by_file: HashMap<apollo_compiler::parser::FileId, usize>, bases: Vec<usize> }
+pub(crate) struct Locs { by_file: HashMap<apollo_compiler::parser::FileId, usize>, bases: Vec<usize> }
 impl Locs {
     fn new(schema_sources: &apollo_compiler::parser::SourceMap, bases: &[usize]) -> Self {
         let mut by_file = HashMap::new();
@@ -165,7 +165,7 @@ impl Locs {
 }
 
 /// how positions and extension identities are printed
-enum Mode<'a> { Positions(&'a Locs), Ordinal(std::cell::RefCell<Vec<Option<SourceSpan>>>) }
+pub(crate) enum Mode<'a> { Positions(&'a Locs), Ordinal(std::cell::RefCell<Vec<Option<SourceSpan>>>) }
 impl Mode<'_> {
     fn p(&self, l: Option<SourceSpan>) -> String {
         match self { Mode::Positions(lo) => format!("@{}", lo.pos(l).map(|x| x.to_string()).unwrap_or("-".into())), Mode::Ordinal(_) => String::new() }
@@ -190,7 +190,7 @@ impl Mode<'_> {
     }
 }
 
-fn dump_schema(s: &Schema, m: &Mode) -> String {
+pub(crate) fn dump_schema(s: &Schema, m: &Mode) -> String {
     let mut types = vec![];
     for (name, ty) in &s.types {
         let bi = ty.is_built_in();
@@ -299,7 +299,7 @@ impl Templates {
     }
 }
 
-fn messages(e: &Option<DiagnosticList>) -> Vec<String> {
+pub(crate) fn messages(e: &Option<DiagnosticList>) -> Vec<String> {
     match e { None => vec![], Some(l) => l.iter().map(|d| d.error.to_string()).collect() }
 }
 
@@ -388,7 +388,7 @@ fn demote(ds: &[D], pick: usize) -> Option<Vec<D>> {
     Some(v)
 }
 
-fn show(srcs: &[String]) -> String { srcs.iter().map(|s| s.replace('\n', " ")).collect::<Vec<_>>().join(" ||| ") }
+pub(crate) fn show(srcs: &[String]) -> String { srcs.iter().map(|s| s.replace('\n', " ")).collect::<Vec<_>>().join(" ||| ") }
 
 struct Obs { dump: String, text: String, msgs: Vec<String> }
 
